@@ -15,6 +15,12 @@ type Node struct {
 	Parent           *Node
 	Children         []*Node
 	FnStart, FnEnd   *Event // for the innermost position
+	// annotations left by the local models
+	Class    []int // per child: Yes (failure) / No / Either as classified by this layer; -1 = not handled by it
+	Exceeded bool  // retry: gave up because retries/duration exceeded
+	Aborted  bool  // retry: stopped on an abort condition
+	Modelled bool  // the layer's local model ran to completion on this call
+	Applied  bool  // fallback: output applied
 }
 
 func (n *Node) exited() bool { return n.Exit != nil }
